@@ -48,15 +48,16 @@ def colmod(v, want_dir, part):
     try:
         per, events = validate_cols(trace)
         byid = {c["id"]: c for c in cases}
-        mine = [c for c in cases if c["dir"] == want_dir]
+        mine = [c for c in cases if c["dir"].endswith(want_dir)]
         bad = 0
         for cid, names in sorted(per.items()):
             c = byid[cid]
-            if c["dir"] != want_dir:
+            if not c["dir"].endswith(want_dir):
                 continue
             bad += 1
-            v.violation({"part": part, "dialect": c["dialect"], "dir": c["dir"], "scenario": c["roles"], "first_violation": names[0]},
-                        {"violated": names, "planner_error": c.get("err"), "statements": c.get("stmts")})
+            case = {"part": part, "dialect": c["dialect"], "dir": c["dir"], "scenario": c["roles"], "first_violation": names[0]}
+            case.update(c.get("extra") or {})
+            v.violation(case, {"violated": names, "planner_error": c.get("err"), "statements": c.get("stmts")})
         planned = sum(1 for c in mine if not c.get("err"))
         return {"scenarios": len(mine), "planned": planned, "bad": bad, "events": events, "model_states": mc}
     finally:
